@@ -70,3 +70,33 @@ impl<B: StarkField, H: ElementHasher<BaseField = B>> RandomCoin for RecCoin<H> {
         r
     }
 }
+
+/// Coin of a prover that is not the stock one: identical to `DefaultRandomCoin` except that it does not insist on
+/// fewer query positions than domain points (it draws `domain_size - 1` positions when asked for more). Parameters with
+/// `num_queries >= lde_domain_size` pass `ProofOptions::new` and `Proof::from_bytes`; the stock prover refuses them
+/// only through an assertion inside its coin, so only a prover with its own coin produces a proof whose every
+/// commitment and out-of-domain value is consistent under such parameters (C06 seeds).
+pub struct LaxCoin<H: ElementHasher> {
+    inner: DefaultRandomCoin<H>,
+}
+
+impl<B: StarkField, H: ElementHasher<BaseField = B>> RandomCoin for LaxCoin<H> {
+    type BaseField = B;
+    type Hasher = H;
+
+    fn new(seed: &[B]) -> Self {
+        LaxCoin { inner: DefaultRandomCoin::new(seed) }
+    }
+    fn reseed(&mut self, data: <H as Hasher>::Digest) {
+        self.inner.reseed(data)
+    }
+    fn check_leading_zeros(&self, value: u64) -> u32 {
+        self.inner.check_leading_zeros(value)
+    }
+    fn draw<E: FieldElement<BaseField = B>>(&mut self) -> Result<E, RandomCoinError> {
+        self.inner.draw::<E>()
+    }
+    fn draw_integers(&mut self, num_values: usize, domain_size: usize, nonce: u64) -> Result<Vec<usize>, RandomCoinError> {
+        self.inner.draw_integers(num_values.min(domain_size - 1), domain_size, nonce)
+    }
+}
